@@ -172,6 +172,14 @@ example : wfUtf8 [34, 195, 169, 92, 113] = true ∧
     WF [34, 195, 169, 92, 113] (LexErr.escapeChar 4 (some 113)).label := by
   decide
 
+/-- `[ "\q` : the nested lexer reports an ASCII escape error: label `(4, 5)` is WF
+    (hypotheses of `lex_nested_wf_partial`) -/
+example : lexFirst [91, 32, 34, 92, 113] = some (.error (.escapeChar 4 (some 113))) ∧
+    wfUtf8 (([91, 32, 34, 92, 113] : List Nat).drop 3) = true ∧
+    (LexErr.escapeChar 4 (some 113)).splitsChar = false ∧
+    WF [91, 32, 34, 92, 113] (LexErr.escapeChar 4 (some 113)).label := by
+  decide
+
 /-- `s'ab` : unterminated raw string -/
 example : lexFirst [115, 39, 97, 98] = some (.error (.literal 0)) := by decide
 
